@@ -219,6 +219,41 @@ func (g *GenConfig) defaults() {
 	}
 }
 
+var uniGens [25]*rapid.Generator[int]
+
+func init() {
+	for k := range uniGens {
+		k := k
+		uniGens[k] = rapid.Custom(func(t *rapid.T) int {
+			v := 0
+			for i := 0; i < k; i++ {
+				if rapid.Bool().Draw(t, "bit") {
+					v |= 1 << uint(i)
+				}
+			}
+			return v
+		})
+	}
+}
+
+// Uniform draws an (almost exactly) uniform integer in [0, n), n <= 2^20. rapid's
+// own integer generators are deliberately biased towards small values, which is
+// the wrong distribution for choosing among alternatives; this one is built from
+// unbiased Bool draws (4 surplus bits keep the modulo bias below 7%).
+func Uniform(t *rapid.T, label string, n int) int {
+	if n <= 1 {
+		return 0
+	}
+	k := 4
+	for m := n - 1; m > 0; m >>= 1 {
+		k++
+	}
+	if k > 24 {
+		k = 24
+	}
+	return uniGens[k].Draw(t, label) % n
+}
+
 // pick draws an index with the given non-negative weights.
 func pick(t *rapid.T, label string, w []int) int {
 	total := 0
@@ -228,7 +263,7 @@ func pick(t *rapid.T, label string, w []int) int {
 	if total <= 0 {
 		return 0
 	}
-	r := rapid.IntRange(0, total-1).Draw(t, label)
+	r := Uniform(t, label, total)
 	for i, x := range w {
 		if r < x {
 			return i
@@ -287,7 +322,7 @@ var HostileWords = [][]byte{
 func DrawWord(t *rapid.T, label string) []byte {
 	switch pick(t, label+"-class", []int{6, 2, 2}) {
 	case 0:
-		return HostileWords[rapid.IntRange(0, len(HostileWords)-1).Draw(t, label)]
+		return HostileWords[Uniform(t, label, len(HostileWords))]
 	case 1:
 		return u64(uint64(rapid.IntRange(0, 1000).Draw(t, label)))
 	default:
@@ -306,40 +341,40 @@ var (
 var hugeOffs = [][]byte{u64(1 << 38), u64(1 << 40), minus(ones(8), 31), ones(8), pow2(64), pow2(255), ones(32)}
 
 func (g *GenConfig) drawOff(t *rapid.T, label string, feat *Feature) []byte {
-	w := []int{80, 8, 4, 8}
+	w := []int{84, 9, 3, 4}
 	if g.Bounded {
 		w[2] = 0
 	}
 	switch pick(t, label+"-class", w) {
 	case 0:
-		return u64(smallOffs[rapid.IntRange(0, len(smallOffs)-1).Draw(t, label)])
+		return u64(smallOffs[Uniform(t, label, len(smallOffs))])
 	case 1:
-		return u64(midOffs[rapid.IntRange(0, len(midOffs)-1).Draw(t, label)])
+		return u64(midOffs[Uniform(t, label, len(midOffs))])
 	case 2:
 		*feat |= FHugeMem
-		return u64(bigOffs[rapid.IntRange(0, len(bigOffs)-1).Draw(t, label)])
+		return u64(bigOffs[Uniform(t, label, len(bigOffs))])
 	default:
 		*feat |= FHugeMem
-		return hugeOffs[rapid.IntRange(0, len(hugeOffs)-1).Draw(t, label)]
+		return hugeOffs[Uniform(t, label, len(hugeOffs))]
 	}
 }
 
 func (g *GenConfig) drawLen(t *rapid.T, label string, feat *Feature) []byte {
-	w := []int{85, 6, 3, 6}
+	w := []int{86, 8, 3, 3}
 	if g.Bounded {
 		w[2] = 0
 	}
 	switch pick(t, label+"-class", w) {
 	case 0:
-		return u64(smallLens[rapid.IntRange(0, len(smallLens)-1).Draw(t, label)])
+		return u64(smallLens[Uniform(t, label, len(smallLens))])
 	case 1:
-		return u64(midOffs[rapid.IntRange(0, len(midOffs)-1).Draw(t, label)])
+		return u64(midOffs[Uniform(t, label, len(midOffs))])
 	case 2:
 		*feat |= FHugeMem
-		return u64(bigOffs[rapid.IntRange(0, len(bigOffs)-1).Draw(t, label)])
+		return u64(bigOffs[Uniform(t, label, len(bigOffs))])
 	default:
 		*feat |= FHugeMem
-		return hugeOffs[rapid.IntRange(0, len(hugeOffs)-1).Draw(t, label)]
+		return hugeOffs[Uniform(t, label, len(hugeOffs))]
 	}
 }
 
@@ -366,10 +401,10 @@ func (g *GenConfig) drawTarget(t *rapid.T, label string, forCall bool) Target {
 				return Target{Kind: TgtSelf}.orMissing(forCall)
 			}
 		}
-		i := rapid.IntRange(lo, nc-1).Draw(t, label)
+		i := lo + Uniform(t, label, nc-lo)
 		return Target{Kind: TgtContract, Addr: g.Contracts[i], Index: i}
 	case 1:
-		return g.Others[rapid.IntRange(0, len(g.Others)-1).Draw(t, label)]
+		return g.Others[Uniform(t, label, len(g.Others))]
 	case 2:
 		if g.Bounded && forCall {
 			return Target{Kind: TgtMissing, Addr: MissingAddr}
@@ -424,7 +459,7 @@ func (g *GenConfig) drawSink(t *rapid.T) (Sink, uint64) {
 		w = []int{4, 3, 3}
 	}
 	s := Sink(pick(t, "sink", w))
-	return s, uint64(rapid.IntRange(0, 3).Draw(t, "scratch")) * 32
+	return s, uint64(Uniform(t, "scratch", 3+1)) * 32
 }
 
 // genValue draws a block that leaves exactly one value on the stack (before its
@@ -448,14 +483,14 @@ func (g *GenConfig) genValue(t *rapid.T, feat *Feature, want Kind) Block {
 		switch pick(t, "arity", []int{2, 8, 2}) {
 		case 0:
 			ops := activeOf(arith1, g.Fork)
-			b.Op = ops[rapid.IntRange(0, len(ops)-1).Draw(t, "op")]
+			b.Op = ops[Uniform(t, "op", len(ops))]
 			b.Vals = [][]byte{DrawWord(t, "a")}
 		case 1:
 			ops := activeOf(arith2, g.Fork)
-			b.Op = ops[rapid.IntRange(0, len(ops)-1).Draw(t, "op")]
+			b.Op = ops[Uniform(t, "op", len(ops))]
 			b.Vals = [][]byte{DrawWord(t, "a"), DrawWord(t, "b")}
 		default:
-			b.Op = arith3[rapid.IntRange(0, 1).Draw(t, "op")]
+			b.Op = arith3[Uniform(t, "op", 1+1)]
 			b.Vals = [][]byte{DrawWord(t, "a"), DrawWord(t, "b"), DrawWord(t, "n")}
 		}
 	case 1:
@@ -464,7 +499,7 @@ func (g *GenConfig) genValue(t *rapid.T, feat *Feature, want Kind) Block {
 		if g.Monotone {
 			ops = without(ops, GAS)
 		}
-		b.Op = ops[rapid.IntRange(0, len(ops)-1).Draw(t, "op")]
+		b.Op = ops[Uniform(t, "op", len(ops))]
 		if b.Op == GAS {
 			*feat |= FGasOp
 		}
@@ -472,14 +507,14 @@ func (g *GenConfig) genValue(t *rapid.T, feat *Feature, want Kind) Block {
 		b.Kind = KEnv
 		if rapid.Bool().Draw(t, "acct") {
 			ops := activeOf(env1acct, g.Fork)
-			b.Op = ops[rapid.IntRange(0, len(ops)-1).Draw(t, "op")]
+			b.Op = ops[Uniform(t, "op", len(ops))]
 			b.Target = g.drawTarget(t, "acct", false)
 			if b.Target.Kind == TgtPrecompile {
 				*feat |= FPrecompile
 			}
 		} else {
 			ops := activeOf(env1word, g.Fork)
-			b.Op = ops[rapid.IntRange(0, len(ops)-1).Draw(t, "op")]
+			b.Op = ops[Uniform(t, "op", len(ops))]
 			b.Vals = [][]byte{DrawWord(t, "a")}
 		}
 	default:
@@ -506,7 +541,7 @@ func without(ops []byte, op byte) []byte {
 var slotPool = [][]byte{{}, {1}, {2}, ones(32)}
 
 func drawSlot(t *rapid.T) []byte {
-	return slotPool[rapid.IntRange(0, len(slotPool)-1).Draw(t, "slot")]
+	return slotPool[Uniform(t, "slot", len(slotPool))]
 }
 
 func drawStoreVal(t *rapid.T) []byte {
@@ -565,7 +600,7 @@ func (g *GenConfig) blockWeights(nest int) []int {
 }
 
 func (g *GenConfig) genBlocks(t *rapid.T, feat *Feature, nest, max int) []Block {
-	n := rapid.IntRange(0, max).Draw(t, "nblocks")
+	n := Uniform(t, "nblocks", max+1)
 	out := make([]Block, 0, n)
 	for i := 0; i < n; i++ {
 		out = append(out, g.genBlock(t, feat, nest))
@@ -611,7 +646,7 @@ func (g *GenConfig) genBlock(t *rapid.T, feat *Feature, nest int) Block {
 		return b
 	case KLog:
 		*feat |= FLog
-		b := Block{Kind: KLog, N: uint64(rapid.IntRange(0, 4).Draw(t, "topics"))}
+		b := Block{Kind: KLog, N: uint64(Uniform(t, "topics", 4+1))}
 		b.Op = LOG0 + byte(b.N)
 		b.Vals = [][]byte{g.drawOff(t, "log-off", feat), g.drawLen(t, "log-len", feat)}
 		for i := uint64(0); i < b.N; i++ {
@@ -624,7 +659,7 @@ func (g *GenConfig) genBlock(t *rapid.T, feat *Feature, nest int) Block {
 		if g.Bounded {
 			maxN = 3
 		}
-		b := Block{Kind: KLoop, N: uint64(rapid.IntRange(1, maxN).Draw(t, "loop-n"))}
+		b := Block{Kind: KLoop, N: uint64(1 + Uniform(t, "loop-n", maxN-1+1))}
 		b.Body = g.genBlocks(t, feat, nest+1, 3)
 		return b
 	case KIf:
@@ -651,8 +686,8 @@ func (g *GenConfig) genBlock(t *rapid.T, feat *Feature, nest int) Block {
 		g.size += 2100
 		// N = stack depth reached before the probe op; Variant selects the op.
 		b := Block{Kind: KDeep}
-		b.N = []uint64{1007, 1008, 1009, 1022, 1023, 1024}[rapid.IntRange(0, 5).Draw(t, "deep-n")]
-		b.Variant = rapid.IntRange(0, 5).Draw(t, "deep-op")
+		b.N = []uint64{1007, 1008, 1009, 1022, 1023, 1024}[Uniform(t, "deep-n", 5+1)]
+		b.Variant = Uniform(t, "deep-op", 5+1)
 		return b
 	case KReturnData:
 		*feat |= FReturnData
@@ -676,7 +711,7 @@ func (g *GenConfig) genBlock(t *rapid.T, feat *Feature, nest int) Block {
 		*feat |= FRecurse
 		b := Block{Kind: KRecurse, Target: Target{Kind: TgtSelf}}
 		ops := activeOf([]byte{CALL, CALL, CALLCODE, DELEGATECALL, STATICCALL}, g.Fork)
-		b.Op = ops[rapid.IntRange(0, len(ops)-1).Draw(t, "recurse-op")]
+		b.Op = ops[Uniform(t, "recurse-op", len(ops))]
 		markCall(feat, b.Op)
 		return b
 	case KRaw:
@@ -705,7 +740,7 @@ func markCall(feat *Feature, op byte) {
 
 func (g *GenConfig) genMem(t *rapid.T, feat *Feature) Block {
 	ops := activeOf([]byte{MLOAD, MSTORE, MSTORE, MSTORE8, KECCAK256, CALLDATACOPY, CODECOPY, EXTCODECOPY, MCOPY}, g.Fork)
-	b := Block{Kind: KMem, Op: ops[rapid.IntRange(0, len(ops)-1).Draw(t, "mem-op")]}
+	b := Block{Kind: KMem, Op: ops[Uniform(t, "mem-op", len(ops))]}
 	switch b.Op {
 	case MLOAD:
 		b.Vals = [][]byte{g.drawOff(t, "off", feat)}
@@ -743,7 +778,7 @@ const (
 
 func (g *GenConfig) genCall(t *rapid.T, feat *Feature) Block {
 	ops := activeOf([]byte{CALL, CALL, CALL, CALLCODE, DELEGATECALL, STATICCALL, STATICCALL}, g.Fork)
-	b := Block{Kind: KCall, Op: ops[rapid.IntRange(0, len(ops)-1).Draw(t, "call-op")]}
+	b := Block{Kind: KCall, Op: ops[Uniform(t, "call-op", len(ops))]}
 	markCall(feat, b.Op)
 	b.Target = g.drawTarget(t, "call-target", true)
 	if b.Target.Kind == TgtPrecompile {
@@ -765,7 +800,7 @@ func (g *GenConfig) genCall(t *rapid.T, feat *Feature) Block {
 	case GasStipend:
 		gas = u64(2300)
 	case GasSmall:
-		gas = u64(uint64(rapid.IntRange(100, 60000).Draw(t, "gas")))
+		gas = u64(uint64(100 + Uniform(t, "gas", 60000-100+1)))
 	case GasAll:
 		gas = ones(32)
 	case GasU64Max:
@@ -785,7 +820,7 @@ func (g *GenConfig) genCall(t *rapid.T, feat *Feature) Block {
 		case 2:
 			value = ones(32)
 		case 3:
-			value = u64(uint64(rapid.IntRange(2, 1000).Draw(t, "value")))
+			value = u64(uint64(2 + Uniform(t, "value", 1000-2+1)))
 		}
 		if len(value) > 0 {
 			*feat |= FValueCall
@@ -809,7 +844,7 @@ func (g *GenConfig) genCall(t *rapid.T, feat *Feature) Block {
 
 func (g *GenConfig) genCreate(t *rapid.T, feat *Feature) Block {
 	ops := activeOf([]byte{CREATE, CREATE2}, g.Fork)
-	b := Block{Kind: KCreate, Op: ops[rapid.IntRange(0, len(ops)-1).Draw(t, "create-op")]}
+	b := Block{Kind: KCreate, Op: ops[Uniform(t, "create-op", len(ops))]}
 	markCall(feat, b.Op)
 	var value []byte
 	switch pick(t, "create-value", []int{6, 3, 1}) {
@@ -821,7 +856,7 @@ func (g *GenConfig) genCreate(t *rapid.T, feat *Feature) Block {
 	if len(value) > 0 {
 		*feat |= FValueCall
 	}
-	salt := [][]byte{{}, {1}, DrawWord(t, "salt")}[rapid.IntRange(0, 2).Draw(t, "salt-class")]
+	salt := [][]byte{{}, {1}, DrawWord(t, "salt")}[Uniform(t, "salt-class", 2+1)]
 	b.Vals = [][]byte{value, salt}
 	iw := []int{4, 3, 2, 1, 1, 1, 1}
 	if g.CreateDepth <= 0 || g.size > 8000 {
@@ -883,10 +918,10 @@ func (g *GenConfig) genStack(t *rapid.T, feat *Feature) Block {
 	}
 	switch pick(t, "stack-op", w) {
 	case 0:
-		n := rapid.IntRange(1, 16).Draw(t, "n")
+		n := 1 + Uniform(t, "n", 16-1+1)
 		b.Op, b.N = DUP1+byte(n-1), uint64(n)
 	case 1:
-		n := rapid.IntRange(1, 16).Draw(t, "n")
+		n := 1 + Uniform(t, "n", 16-1+1)
 		b.Op, b.N = SWAP1+byte(n-1), uint64(n+1)
 	case 2:
 		b.Op = DUPN
@@ -914,9 +949,9 @@ func (g *GenConfig) genStack(t *rapid.T, feat *Feature) Block {
 func drawImm(t *rapid.T, feat *Feature, lastLow int) byte {
 	if pick(t, "imm-class", []int{5, 1}) == 1 {
 		*feat |= FBadImm
-		return byte(rapid.IntRange(lastLow+1, 127).Draw(t, "imm"))
+		return byte(lastLow + 1 + Uniform(t, "imm", 127-lastLow))
 	}
-	v := rapid.IntRange(0, lastLow+128).Draw(t, "imm")
+	v := Uniform(t, "imm", lastLow+129)
 	if v > lastLow {
 		v += 127 - lastLow
 	}
@@ -969,16 +1004,16 @@ func (g *GenConfig) genTerm(t *rapid.T, feat *Feature, early bool) Block {
 		*feat |= FSelfDestruct
 		b.Target = g.drawTarget(t, "beneficiary", false)
 	case TOOGLoop:
-		b.Variant = rapid.IntRange(0, 2).Draw(t, "oog-variant")
+		b.Variant = Uniform(t, "oog-variant", 2+1)
 	case TBadJump:
-		b.Variant = rapid.IntRange(0, 4).Draw(t, "badjump-variant")
+		b.Variant = Uniform(t, "badjump-variant", 4+1)
 	case TRawTail:
 		*feat |= FRaw
 		b.Raw = DrawRaw(t, g.Fork, 48)
 	case KInactive:
 		*feat |= FInactive
 		in := InactiveOps(g.Fork)
-		b.Raw = []byte{in[rapid.IntRange(0, len(in)-1).Draw(t, "inactive-op")]}
+		b.Raw = []byte{in[Uniform(t, "inactive-op", len(in))]}
 	}
 	return b
 }
@@ -993,12 +1028,12 @@ func DrawRaw(t *rapid.T, f Fork, max int) []byte {
 	if rapid.Bool().Draw(t, "raw-uniform") {
 		return rapid.SliceOfN(rapid.Byte(), 1, max).Draw(t, "raw-bytes")
 	}
-	n := rapid.IntRange(1, max).Draw(t, "soup-n")
+	n := 1 + Uniform(t, "soup-n", max-1+1)
 	ops := ActiveOps(f)
 	a := NewAsm(f >= Shanghai)
 	a.Unchecked = true
 	var labels []Label
-	nl := rapid.IntRange(1, 4).Draw(t, "soup-labels")
+	nl := 1 + Uniform(t, "soup-labels", 4-1+1)
 	for i := 0; i < nl; i++ {
 		labels = append(labels, a.NewLabel())
 	}
@@ -1008,7 +1043,7 @@ func DrawRaw(t *rapid.T, f Fork, max int) []byte {
 		case 0:
 			a.Push(DrawWord(t, "soup-word"))
 		case 1:
-			op := ops[rapid.IntRange(0, len(ops)-1).Draw(t, "soup-op")]
+			op := ops[Uniform(t, "soup-op", len(ops))]
 			if im := Info(op).Imm; im > 0 {
 				a.Raw(op)
 				a.Raw(rapid.SliceOfN(rapid.Byte(), im, im).Draw(t, "soup-imm")...)
@@ -1023,7 +1058,7 @@ func DrawRaw(t *rapid.T, f Fork, max int) []byte {
 				a.Op(JUMPDEST)
 			}
 		default:
-			l := labels[rapid.IntRange(0, len(labels)-1).Draw(t, "soup-target")]
+			l := labels[Uniform(t, "soup-target", len(labels))]
 			if rapid.Bool().Draw(t, "soup-jumpi") {
 				a.Push(DrawWord(t, "soup-cond")).PushLabel(l).Raw(JUMPI)
 			} else {
@@ -1064,9 +1099,9 @@ func drawProgram(t *rapid.T, g *GenConfig) *Program {
 		feat |= FRecurse
 		b := Block{Kind: KRecurse, Target: Target{Kind: TgtSelf}}
 		ops := activeOf([]byte{CALL, CALLCODE, DELEGATECALL, STATICCALL}, g.Fork)
-		b.Op = ops[rapid.IntRange(0, len(ops)-1).Draw(t, "recurse-op")]
+		b.Op = ops[Uniform(t, "recurse-op", len(ops))]
 		markCall(&feat, b.Op)
-		at := rapid.IntRange(0, len(p.Blocks)).Draw(t, "recurse-at")
+		at := Uniform(t, "recurse-at", len(p.Blocks)+1)
 		p.Blocks = append(p.Blocks[:at], append([]Block{b}, p.Blocks[at:]...)...)
 	}
 	p.Term = g.genTerm(t, &feat, false)
